@@ -113,6 +113,7 @@ MUTANTS['C11'] = [
 ]
 
 MUTANTS['C01'] = [
+  ('batch-iter-input-iterator-on-the-object', [(C, "        current_batch = list()\n        for element in self.input_dataset:\n            current_batch.append(element)\n            if len(current_batch) >= self.batch_size:", "        current_batch = list()\n        self._it = iter(self.input_dataset)\n        while True:\n            try:\n                element = next(self._it)\n            except StopIteration:\n                break\n            current_batch.append(element)\n            if len(current_batch) >= self.batch_size:")]),
   ('prefetch-none-as-end-marker', [(P, "    unique_object = object()\n    exc_info = None\n", "    unique_object = None\n    exc_info = None\n")]),
   ('unbatch-skips-falsy-examples', [(C, "            for example in batch:\n                yield example", "            for example in batch:\n                if example or example == 0:\n                    yield example")]),
   ('slice-keys-memo-on-class', [(C, "            self._keys = operator.itemgetter(*self.slice)(keys)", "            type(self)._keys = operator.itemgetter(*self.slice)(keys)")]),
